@@ -1,6 +1,6 @@
 """Builder histories and stand-alone writer cases (DESIGN 5.3, builder / writer streams).
 A history is (ctor string, [op strings]) in the case-file syntax of the harness."""
-from .lib import Rng, FAM_SIZE, expr, fill, hx, special_ip6, special_ip4
+from .lib import Rng, FAM_SIZE, expr, fill, hx, special_ip6, special_ip4, class_pairs
 
 INT_KINDS = [("u8", 8, False), ("u16", 16, False), ("u32", 32, False), ("u64", 64, False), ("u128", 128, False),
              ("usize", 64, False), ("i8", 8, True), ("i16", 16, True), ("i32", 32, True), ("i64", 64, True),
@@ -39,6 +39,9 @@ def rand_addr(rng, fam=None):
 
 
 def rand_bytes_expr(rng, big_ok=True):
+    if rng.chance(1, 10):
+        # all-zero / all-ones values of the canonical small sizes (checksum placeholders, padding)
+        return fill(rng.choice([1, 2, 4, 4, 8, 16]), rng.choice([0, 0, 255]))
     pick = rng.below(40 if big_ok else 20)
     if pick < 12:
         return hx(rng.bytes(rng.below(6)))
@@ -96,12 +99,23 @@ def rand_op(rng, big_ok=True):
         k = rng.below(4)
         return "B=" + ("|".join(rand_payload(rng, big_ok) for _ in range(k)) if k else "-")
     if pick == 10:
-        return "T=%d:%s" % (rng.below(256), rand_bytes_expr(rng, big_ok))
+        return "T=%d:%s" % (rng.choice([rng.below(256), rng.choice([1, 2, 3, 4, 5, 0x20, 0x21, 0x22, 0x23, 0x24, 0x25, 0x30])]), rand_bytes_expr(rng, big_ok))
     return "TT=%d:%s" % (rng.below(12), rand_bytes_expr(rng, False))
+
+
+def class_pair_addrs(k, n):
+    crng = Rng(0xC1A55).fork("bpairs")
+    for fam in (6, 4):
+        for a, b in class_pairs(crng, fam, k, n):
+            yield "%d,%s,%s,%d,%d" % (fam, hx(a), hx(b), 1 + crng.below(65535), 1 + crng.below(65535))
 
 
 def random_histories(tier, rng, k, n):
     rng = rng.fork("hist%d" % k)
+    for a in class_pair_addrs(k, n):
+        # both constructors and the address block as a payload, with and without a TLV after it
+        yield ("build-random", ("W,33,1," + a, ["T=4:2a"] if rng.chance(1, 2) else []), {})
+        yield ("build-random", ("N,33,%d" % (0x21 if a[0] == "6" else 0x11), ["P=a:" + a]), {})
     count = (30000 if tier == "quick" else 600000) // n
     for _ in range(count):
         c = rand_ctor(rng)
@@ -170,6 +184,8 @@ def size_boundary(tier, rng, k, n):
 def parse_round_trip(tier, rng, k, n):
     """valid-command builds with TLV lists (C07): every type byte, value lengths 0..65535, totals of exactly 65 535"""
     rng = rng.fork("c07-%d" % k)
+    for a in class_pair_addrs(k, n):
+        yield ("build-wire", ("C,1,1," + a, ["T=4:2a"] if rng.chance(1, 2) else []), {"fam": 2 if a[0] == "6" else 1})
     count = (8000 if tier == "quick" else 120000) // n
     for i in range(count):
         fam = rng.below(4)
@@ -180,13 +196,14 @@ def parse_round_trip(tier, rng, k, n):
         exact = rng.chance(1, 200)
         nt = rng.below(5)
         for _ in range(nt):
-            ln = rng.choice([0, 0, 1, 2, 3, 16, 255, 256, 300])
+            zero = rng.chance(1, 6)
+            ln = rng.choice([4, 4, 1, 8]) if zero else rng.choice([0, 0, 1, 2, 3, 16, 255, 256, 300])
             if budget < 3 + ln:
                 break
             budget -= 3 + ln
-            kind = rng.below(256)
+            kind = rng.choice([rng.below(256), rng.choice([1, 2, 3, 4, 5, 0x20, 0x21, 0x22, 0x23, 0x24, 0x25, 0x30])])
             form = rng.below(4)
-            v = hx(rng.bytes(ln))
+            v = hx(bytes(ln) if zero else rng.bytes(ln))     # all-zero values: checksum placeholders, padding
             if form == 0:
                 ops.append("T=%d:%s" % (kind, v))
             elif form == 1:
@@ -204,6 +221,8 @@ def parse_round_trip(tier, rng, k, n):
 def writer_cases(tier, rng, k, n):
     """C20: every payload kind into empty, small and nearly-full writers"""
     rng = rng.fork("write%d" % k)
+    for a in class_pair_addrs(k, n):
+        yield ("write", ("-" if rng.chance(1, 2) else "0102", "a:" + a), {})
     count = (40000 if tier == "quick" else 500000) // n
     for i in range(count):
         p = rand_payload(rng, big_ok=rng.chance(1, 40))
